@@ -505,6 +505,143 @@ Section Forwarded.
   Qed.
 End Forwarded.
 
+(* ------------------------------------------------------------------ token level: forwarded multi-token options
+   [block s O]: the token sequence s occurs in O as a contiguous block. *)
+Definition block {A : Type} (s O : list A) : Prop := exists a b, O = a ++ s ++ b.
+
+Lemma block_refl {A : Type} (s : list A) : block s s.
+Proof. exists [], []. now rewrite app_nil_r. Qed.
+
+Lemma block_app_l {A : Type} (s O t : list A) : block s O -> block s (O ++ t).
+Proof. intros (a & b & ->). exists a, (b ++ t). now rewrite <- !app_assoc. Qed.
+
+Lemma block_app_r {A : Type} (s O t : list A) : block s O -> block s (t ++ O).
+Proof. intros (a & b & ->). exists (t ++ a), b. now rewrite <- !app_assoc. Qed.
+
+Lemma block_flat_map {A B : Type} (f : A -> list B) x v s :
+  In x v -> block s (f x) -> block s (flat_map f v).
+Proof.
+  intros Hx Hs. apply in_split in Hx. destruct Hx as (l1 & l2 & ->).
+  rewrite flat_map_app. cbn [flat_map]. apply block_app_r, block_app_l. exact Hs.
+Qed.
+
+Lemma block_In {A : Type} (s O : list A) x : block s O -> In x s -> In x O.
+Proof. intros (a & b & ->) H. rewrite !in_app_iff. tauto. Qed.
+
+(* strings are appended unconditionally *)
+Lemma oappend_str acc o : is_ostr o = true -> oappend acc o = acc ++ [o].
+Proof. intros H. unfold oappend. now rewrite H. Qed.
+
+Lemma oextend_app acc l1 l2 : oextend acc (l1 ++ l2) = oextend (oextend acc l1) l2.
+Proof. unfold oextend. apply fold_left_app. Qed.
+
+Lemma oextend_strs s : forall acc, forallb is_ostr s = true -> oextend acc s = acc ++ s.
+Proof.
+  unfold oextend. induction s as [|o s IH]; intros acc H; cbn [fold_left].
+  - now rewrite app_nil_r.
+  - cbn [forallb] in H. apply andb_true_iff in H. destruct H as [Ho Hs].
+    rewrite oappend_str by assumption. rewrite IH by assumption. now rewrite <- app_assoc.
+Qed.
+
+(* the option list only grows at its end *)
+Lemma oextend_prefix l : forall acc, exists t, oextend acc l = acc ++ t.
+Proof.
+  unfold oextend. induction l as [|o l IH]; intros acc; cbn [fold_left].
+  - exists []. now rewrite app_nil_r.
+  - destruct (IH (oappend acc o)) as (t & ->). unfold oappend.
+    destruct (is_ostr o || negb (existsb (opt_eqb o) acc)).
+    + exists (o :: t). now rewrite <- app_assoc.
+    + now exists t.
+Qed.
+
+Lemma block_oextend_acc s acc l : block s acc -> block s (oextend acc l).
+Proof. intros H. destruct (oextend_prefix l acc) as (t & ->). now apply block_app_l. Qed.
+
+Lemma block_oextend_arg s acc l : forallb is_ostr s = true -> block s l -> block s (oextend acc l).
+Proof.
+  intros Hs (a & b & ->). rewrite !oextend_app. apply block_oextend_acc.
+  rewrite oextend_strs by assumption. apply block_app_r, block_refl.
+Qed.
+
+Lemma strs_not_lib s : forallb is_ostr s = true -> filter (fun o => negb (is_olib o)) s = s.
+Proof.
+  induction s as [|o s IH]; cbn [forallb filter]; intros H; [reflexivity|].
+  apply andb_true_iff in H. destruct H as [Ho Hs]. destruct o; try discriminate. cbn. now rewrite IH.
+Qed.
+
+Lemma block_opt_flags s O : forallb is_ostr s = true -> block s O -> block s (opt_flags O).
+Proof.
+  intros Hs (a & b & ->). unfold opt_flags. rewrite !filter_app, (strs_not_lib s Hs).
+  eexists _, _. reflexivity.
+Qed.
+
+(* the exact law: strings are never de-duplicated *)
+Lemma filter_str_oextend l : forall acc,
+  filter is_ostr (oextend acc l) = filter is_ostr acc ++ filter is_ostr l.
+Proof.
+  unfold oextend. induction l as [|o l IH]; intros acc; cbn [fold_left filter].
+  - now rewrite app_nil_r.
+  - rewrite IH. unfold oappend. destruct (is_ostr o) eqn:E; cbn [orb].
+    + rewrite filter_app. cbn [filter]. rewrite E. now rewrite <- app_assoc.
+    + destruct (negb (existsb (opt_eqb o) acc)); [|reflexivity].
+      rewrite filter_app. cbn [filter]. rewrite E. now rewrite app_nil_r.
+Qed.
+
+Lemma filter_str_libs ls : filter is_ostr (map OLib ls) = [].
+Proof. induction ls as [|a ls IH]; cbn; [reflexivity|assumption]. Qed.
+
+Section Tokens.
+  Variable deps : lib -> list lib.
+  Variable fwd : lib -> bool.
+  Variable lopts : lib -> list opt.
+  Variable pkgs : lib -> list N.
+  Variable pkgopts : N -> list opt.
+
+  (* every run of string tokens of the link options of a reachable forwarding library, of the link
+     options of an own or forwarded package, and of the user's own link options is a contiguous block of
+     the final option list and of the option part of the argv *)
+  Lemma final_opts_tokens fixed f user upkgs uopts O :
+    final_opts deps fwd lopts pkgs pkgopts fixed f user upkgs uopts = Some O ->
+    forall s, forallb is_ostr s = true ->
+      (exists x, reach deps fwd user x /\ fwd x = true /\ block s (lopts x)) \/
+      (exists p, block s (pkgopts p) /\
+                 (In p upkgs \/ exists x, reach deps fwd user x /\ fwd x = true /\ In p (pkgs x))) \/
+      block s uopts ->
+      block s O /\ block s (opt_flags O).
+  Proof.
+    unfold final_opts. destruct (visits deps fwd f user) as [v|] eqn:Hv; [|discriminate].
+    destruct (link_libs deps fwd fixed f user) as [ls|] eqn:Hl; [|discriminate].
+    intros H s Hs C. inversion H; subst O; clear H.
+    match goal with |- block s ?X /\ _ => assert (block s X) as B end.
+    { destruct C as [(x & Rx & Fx & Bx)|[(p & Bp & Hp)|Bu]].
+      - apply block_oextend_acc. apply block_oextend_arg; [assumption|].
+        unfold fwd_lopts. apply block_oextend_arg; [assumption|].
+        apply block_flat_map with (x := x); [|assumption].
+        now apply (reach_visited _ _ _ _ _ Hv).
+      - do 2 apply block_oextend_acc. apply block_oextend_arg; [assumption|].
+        apply block_flat_map with (x := p); [|assumption].
+        rewrite in_app_iff. destruct Hp as [Hp|(x & Rx & Fx & Hp)]; [now left|right].
+        unfold fwd_pkgs. apply in_flat_map. exists x. split; [|assumption].
+        now apply (reach_visited _ _ _ _ _ Hv).
+      - now apply block_oextend_arg. }
+    split; [exact B|now apply block_opt_flags].
+  Qed.
+
+  (* the string tokens of the final option list, in order and with multiplicity: the package options,
+     then the link options of every visit of ForwardOptions.recurse (once per path), then the user's *)
+  Lemma final_opts_strings fixed f user upkgs uopts O v :
+    visits deps fwd f user = Some v ->
+    final_opts deps fwd lopts pkgs pkgopts fixed f user upkgs uopts = Some O ->
+    filter is_ostr O = filter is_ostr (flat_map pkgopts (upkgs ++ fwd_pkgs pkgs v)) ++
+                       filter is_ostr (flat_map lopts v) ++ filter is_ostr uopts.
+  Proof.
+    intros Hv. unfold final_opts. rewrite Hv.
+    destruct (link_libs deps fwd fixed f user) as [ls|]; [|discriminate].
+    intros H. inversion H; subst O; clear H. unfold fwd_lopts.
+    rewrite !filter_str_oextend, filter_str_libs. cbn [filter app]. now rewrite <- app_assoc.
+  Qed.
+End Tokens.
+
 (* ------------------------------------------------------------------ relative run-time search path *)
 (* well-formed components: what BasePath guarantees for a normalised suffix *)
 Definition wfc (l : list str) : Prop :=
